@@ -148,7 +148,7 @@ pub fn drive()
         let detail = J::obj(vec![
             ("clock_model", J::s(if clock == Clock::Coarse { "one tick per user action / invocation" } else { "every write distinct" })),
             ("graph_shape", J::s(&a.graph_shape)),
-            ("rules_file", J::Str(String::from_utf8_lossy(&a.world.sys.read_file(world::RULES_FILE).unwrap_or(vec![])).to_string())),
+            ("rules_file", J::Str(a.world.rules_text())),
             ("history", J::strs(&a.world.ops)),
         ]);
         if tally.wants_sample() && restored_any && found.is_none() { tally.sample(detail.clone()); }
